@@ -97,6 +97,7 @@ class H11Protocol:
         self.app = app
         self.can_read = context.event_class()
         self.client = client
+        self.closed = False
         self.config = config
         self.connection: Union[h11.Connection, H11WSConnection] = h11.Connection(
             h11.SERVER, max_incomplete_event_size=self.config.h11_max_incomplete_size
@@ -118,6 +119,7 @@ class H11Protocol:
             self.connection.receive_data(event.data)
             await self._handle_events()
         elif isinstance(event, Closed):
+            self.closed = True
             if self.stream is not None:
                 await self._close_stream()
 
@@ -289,7 +291,8 @@ class H11Protocol:
     async def _maybe_recycle(self) -> None:
         await self._close_stream()
         if (
-            not self.context.terminated.is_set()
+            not self.closed
+            and not self.context.terminated.is_set()
             and self.connection.our_state is h11.DONE
             and self.connection.their_state is h11.DONE
         ):
